@@ -201,9 +201,53 @@ func genTreeInput(r *rand.Rand) (Paths, Paths) {
 	}
 }
 
+// genNotchInput: a square with a V-notch in one side and a polygon whose vertices lie exactly on the two notch sides
+// (lattice points of the sides) plus one vertex inside or outside the notch: separate polygons that touch in more
+// than a point, where containment is decided by the equivocal-vertex fall-back; mirrored / transposed at random
+func genNotchInput(r *rand.Rand) (Paths, Paths) {
+	t1, t2 := int64(1+r.Intn(15)), int64(1+r.Intn(15))
+	q := Path{{0, 0}, {96, 0}, {64, 48}, {96, 96}, {0, 96}}
+	apex := Pt{int64(72 + 8*r.Intn(10)), int64(24 + 8*r.Intn(7))}
+	p := Path{{96 - 2*t1, 3 * t1}, apex, {96 - 2*t2, 96 - 3*t2}}
+	if r.Intn(4) == 0 { // a fourth vertex on a notch side as well
+		t3 := int64(1 + r.Intn(15))
+		if t3 != t2 {
+			p = append(p, Pt{96 - 2*t3, 96 - 3*t3})
+		}
+	}
+	fx, tr := r.Intn(2) == 0, r.Intn(2) == 0
+	m := func(a Path, rev bool) Path {
+		o := make(Path, len(a))
+		for i, v := range a {
+			x, y := v[0], v[1]
+			if fx {
+				x = 96 - x
+			}
+			if tr {
+				x, y = y, x
+			}
+			o[i] = Pt{x, y}
+		}
+		if rev {
+			for i, j := 0, len(o)-1; i < j; i, j = i+1, j-1 {
+				o[i], o[j] = o[j], o[i]
+			}
+		}
+		return o
+	}
+	rev := r.Intn(2) == 0
+	if r.Intn(2) == 0 {
+		return Paths{m(q, rev), m(p, rev)}, Paths{}
+	}
+	return Paths{m(q, rev)}, Paths{m(p, rev)}
+}
+
 func driveTree(r *rand.Rand, w *writer, n int) {
 	for i := 0; i < n; i++ {
 		subj, clip := genTreeInput(r)
+		if i%12 == 5 {
+			subj, clip = genNotchInput(r)
+		}
 		e := &TreeEv{Ev: "TreeOp", Chk: chkFor("C04"), Api: treeApis[r.Intn(4)], Ct: 1 + r.Intn(4), Fr: r.Intn(4), Subj: subj, Clip: clip}
 		if e.K == 0 {
 			// keep D inputs small enough for the native instance after scaling by 100
